@@ -152,9 +152,10 @@ class JText:
 class Blob:
     """What ``.encode()`` of a JText returns; the content of model files."""
 
-    def __init__(self, tree, corrupt=False):
+    def __init__(self, tree, corrupt=False, pad=0):
         self.tree = tree
         self.corrupt = corrupt
+        self.pad = pad  # extra bytes of a foreign formatting (indentation, trailing newline): same data, other size
 
     def decode(self, *a, **k):
         if self.corrupt:
@@ -164,12 +165,13 @@ class Blob:
         return JText(self.tree)
 
     def __len__(self):
-        return 0 if self.corrupt and self.tree is None else tree_size(self.tree)
+        return 0 if self.corrupt and self.tree is None else tree_size(self.tree) + self.pad
 
     def __eq__(self, other):
         return (
             isinstance(other, Blob)
             and self.corrupt == other.corrupt
+            and self.pad == getattr(other, "pad", 0)
             and same_bytes(self.tree, other.tree)
         )
 
@@ -1186,11 +1188,14 @@ class Env:
     def path(self, name):
         return _real_os.path.join(self.dir, name)
 
-    def write_doc(self, name, tree):
-        """Outside writer: put a JSON document (plain tree) into file `name`."""
+    def write_doc(self, name, tree, foreign=False):
+        """Outside writer: put a JSON document (plain tree) into file `name`.  `foreign`:
+        written by another tool (indented, newline-terminated) -- same data, other bytes."""
         p = self.path(name)
         if self.mode == "model":
-            self.fs.put(p, Blob(copy_tree(tree)))
+            self.fs.put(p, Blob(copy_tree(tree), pad=7 if foreign else 0))
+        elif foreign:
+            self.fs.put(p, (_real_json.dumps(tree, indent=2) + "\n").encode())
         else:
             self.fs.put(p, _real_json.dumps(tree).encode())
 
